@@ -28,6 +28,8 @@ def hilbert_mod():
 def cfd_vector(p, n, hs):
     """coordinates_from_distances -> list of rows of Python ints"""
     H = hilbert_mod()
+    if len(hs) == 0:
+        return []
     out = H.coordinates_from_distances(p, n, np.asarray(hs, dtype=np.int64))
     return [[int(x) for x in row] for row in np.asarray(out).tolist()]
 
@@ -39,6 +41,8 @@ def cfd_scalar(p, n, hs):
 
 def dfc_vector(p, coords):
     H = hilbert_mod()
+    if len(coords) == 0:
+        return [], True
     arr = np.asarray(coords, dtype=np.int64).reshape(len(coords), -1)
     before = arr.copy()
     out = H.distances_from_coordinates(p, arr)
